@@ -416,7 +416,7 @@ pub async fn run_async(plan: Arc<PlanB>, opts: &ExecB) -> RunResult {
         out_delay_max_ms: 1500,
         sndbuf: plan.sndbuf,
         max_seg: plan.max_seg,
-        faults_until_ns: u64::MAX,
+        faults_until_ns: plan.queries.iter().filter(|q| !q.after_faults).map(|q| q.at_ms).max().map(|t| (t + 600_000) * 1_000_000).filter(|_| plan.queries.iter().any(|q| q.after_faults)).unwrap_or(u64::MAX),
     };
     let kernel = Kernel::new(plan.seed, ifaces.clone(), Some(UP_IF), knobs, opts.trace);
     erbium_net::sim::install(Some(std::rc::Rc::new(KHandle(kernel.clone()))));
@@ -520,6 +520,10 @@ pub async fn run_async(plan: Arc<PlanB>, opts: &ExecB) -> RunResult {
 
     for (loc, msg) in crate::common::take_panics() {
         res.violate("C05", &format!("C05.panic@{}", loc), format!("panic in a DNS task: {}", msg), 0);
+        if loc.contains("dns/dnspkt.rs") || loc.contains("dns/parse.rs") {
+            /* the codec itself gave up on a message it had decoded */
+            res.violate("C14", &format!("C14.codec_panic@{}", loc), format!("the DNS codec panicked while re-encoding a relayed message: {}", msg), 0);
+        }
     }
     svc.abort();
     evaluate(&plan, &kernel, &sh, &sent_at_ns, end_ns, &mut res);
@@ -763,12 +767,16 @@ fn evaluate(plan: &PlanB, kernel: &Arc<Kernel>, sh: &Sh, sent_at_ns: &[u64], _en
                     };
                     let Some(rep) = rep else {
                         if recs.is_empty() {
+                            if q.after_faults {
+                                res.probe("C07.recovery_probe");
+                            }
                             if rcode == 2 && (touched || key_count[&key_of(q)] > 1) {
                                 res.probe("C07.servfail_after_fault");
                             } else if rcode == 2 && g.replies.iter().any(|r| r.qidx == qi) {
                                 res.violate("C03", "C03.upstream_answer_replaced_by_servfail", format!("clean query {} got SERVFAIL [{}] although upstream answered (behaviour {:?}/{:?}; answer spec {:?})", q.qname.to_text(), ede, q.up, q.up_tcp, q.ans), qi);
+                                res.violate("C07", if q.after_faults { "C07.no_recovery_after_faults" } else { "C07.clean_query_got_servfail_although_upstream_answered" }, format!("clean query {} ({}) got SERVFAIL [{}] although its upstream answered", q.qname.to_text(), if q.tcp { "TCP" } else { "UDP" }, ede), qi);
                             } else if rcode == 2 {
-                                res.violate("C07", "C07.servfail_for_clean_query", format!("clean query {} ({}) got SERVFAIL [{}]; upstream saw {:?}", q.qname.to_text(), if q.tcp { "TCP" } else { "UDP" }, ede, g.seen[qi]), qi);
+                                res.violate("C07", if q.after_faults { "C07.no_recovery_after_faults" } else { "C07.servfail_for_clean_query" }, format!("clean query {} ({}) got SERVFAIL [{}]; upstream saw {:?}", q.qname.to_text(), if q.tcp { "TCP" } else { "UDP" }, ede, g.seen[qi]), qi);
                             } else {
                                 res.violate("C03", "C03.response_not_attributable", format!("response to {} (rcode {}, no records) matches no upstream reply", q.qname.to_text(), rcode), qi);
                             }
@@ -973,6 +981,10 @@ fn evaluate(plan: &PlanB, kernel: &Arc<Kernel>, sh: &Sh, sent_at_ns: &[u64], _en
 
 /// No fault touched this query or its upstream exchange (DESIGN.md section 4).
 fn is_clean(plan: &PlanB, q: &QuerySpec) -> bool {
+    if q.after_faults {
+        /* probabilistic network faults have stopped 200 s before; its own exchange is well behaved */
+        return true;
+    }
     if plan.out_loss_p > 0.0 || plan.out_dup_p > 0.0 || plan.out_delay_p > 0.0 || plan.qid_bits < 16 || q.dup_in {
         return false;
     }
